@@ -578,7 +578,22 @@ impl<'i> RecipeCollector<'i, '_> {
                 };
                 self.ctx
                     .warn(warning!(format!("Ignoring {c} in text mode"), label!(span)));
-                s.push_str(&self.input[span.range()]);
+                // keep the component as written, but like in any other text,
+                // comments are not part of it
+                let src = &self.input[span.range()];
+                let mut cursor = crate::lexer::Cursor::new(src);
+                let mut pos = 0;
+                loop {
+                    let token = cursor.advance_token();
+                    let end = pos + token.len as usize;
+                    match token.kind {
+                        crate::lexer::TokenKind::Eof => break,
+                        crate::lexer::TokenKind::LineComment
+                        | crate::lexer::TokenKind::BlockComment => {}
+                        _ => s.push_str(&src[pos..end]),
+                    }
+                    pos = end;
+                }
             }
             _ => panic!("Unexpected event in text block: {ev:?}"),
         }
